@@ -239,6 +239,7 @@ def snap(f):
             while isinstance(p, Payload):
                 p = p.value
                 k += 1
+            p = U.undress(p)
             if k != 1 or not isinstance(p, int):
                 out.append([_coord(c), [-2, k]])
             else:
